@@ -193,10 +193,10 @@ Definition outcome_s (r : sres val) : outcome :=
   end.
 
 Definition run_o (fuel : nat) (declared : list nat) (halt : Z) (p : prog) : state * list label * outcome :=
-  match exec_o eval truthy tick recatch fuel (init_state declared halt) [] (SBlock p) with
+  match exec_o eval truthy tick recatch val_seq fuel (init_state declared halt) [] (SBlock p) with
   | (s, L, r) => (s, L, outcome_o r)
   end.
 Definition run_s (fuel : nat) (declared : list nat) (halt : Z) (p : prog) : state * outcome :=
-  match exec_s eval truthy tick recatch fuel (init_state declared halt) [] (SBlock p) with
+  match exec_s eval truthy tick recatch val_seq fuel (init_state declared halt) [] (SBlock p) with
   | (s, r) => (s, outcome_s r)
   end.
